@@ -22,7 +22,7 @@ CFG = dict(
                  "3": "route: a unary call's result is not what the FIRST delivered envelope carrying its id says",
                  "4": "route/order: the messages a stream's RecvMsg returned are not, in order and once each, the bodies of the delivered envelopes carrying its id",
                  "5": "isolation: a call reported a success whose body no delivered envelope with its id carried",
-                 "9": "free-running: a caller received a reply that is not the function (+1) of ITS OWN request"},
+                 "9": "free-running / write-fault: a caller received a reply that is not the function (+1) of ITS OWN request, or none at all"},
     rule="(a) lock-step in synctest bubbles, real client vs scripted peer: k calls (every mix of unary / stream), EVERY permutation of their "
          "response envelopes for k <= 2 with 1..3 envelopes each (quick: all but the 6-envelope shapes, of which one sixth chosen by the "
          "seed; thorough: all), k = 3 sampled (150 / 4000), one third with an envelope for a foreign id inserted; bodies encode (call, "
@@ -32,7 +32,10 @@ CFG = dict(
          "already-ended context (its transport write fails cleanly while the others are in flight), one stream in three is aborted by "
          "its handler while the client still sends; (c) TestC05Fault, in a bubble with a transport that holds writes: 1..2 unary calls "
          "whose Write fails cleanly (context ends while the write waits / write error) while 1..3 later calls are in flight, then 1..2 new "
-         "calls; the peer answers every request it received with token + 1 under the request's id",
+         "calls; the peer answers every request it received with token + 1 under the request's id; these cases are ALSO compared with the "
+         "model (reason 1): a Write held by the transport is the model state 'id allocated, not yet registered + written'; "
+         "Check/C05c.v builds the explicit label sequence (fault_labels) and the ids on the wire and every caller's result must be "
+         "those of that model run",
     assumptions=["payloads, metadata and methods are opaque tokens in the model",
                  "atomicity of atomic.AddUint64 is the Go runtime's; the 2^64 wrap of the id counter is an explicit hypothesis of C05_unique",
                  "quiescence = testing/synctest's durable blocking"],
